@@ -35,6 +35,8 @@ pub struct Lexer<CharIter: Iterator<Item = char>> {
     pub current: Option<char>,
     pub peekable_char_stream: Peekable<CharIter>,
     location: [u32; 2],
+    // false for text that is not the user's (the bundled libraries): its tokens carry no location
+    located: bool,
 }
 
 impl<CharIter: Iterator<Item = char>> Iterator for Lexer<CharIter> {
@@ -42,7 +44,11 @@ impl<CharIter: Iterator<Item = char>> Iterator for Lexer<CharIter> {
     fn next(&mut self) -> Option<Self::Item> {
         match self.try_next() {
             Ok(None) => None,
-            Ok(Some(data)) => Some(Ok(data.locate(Some(self.location)))),
+            Ok(Some(data)) => Some(Ok(data.locate(if self.located {
+                Some(self.location)
+            } else {
+                None
+            }))),
             Err(e) => Some(Err(e)),
         }
     }
@@ -75,7 +81,16 @@ impl<CharIter: Iterator<Item = char>> Lexer<CharIter> {
             current: None,
             peekable_char_stream: char_stream.peekable(),
             location: [1, 1],
+            located: true,
         }
+    }
+
+    /// For source text that does not belong to the program being run (the bundled libraries): a
+    /// line and column in it would be meaningless to the user, so errors raised inside it fall back
+    /// to the location of the user's form that was being evaluated.
+    pub fn without_locations(mut self) -> Self {
+        self.located = false;
+        self
     }
 
     pub fn set_last_location(&mut self, location: [u32; 2]) {
